@@ -81,11 +81,18 @@ def find_labels():
         ("time.sleep(", "before_sleep"),
         ("report.print_status(pcfg)", "status"),
         ("self._save_session()", "before_save"),
+        ("num_generated_guesses = self.pcfg.create_guesses(", "before_expand"),
+        ("self.report.pt_item = pt_item", "after_check"),
+        ("self.report.num_guesses += num_generated_guesses", "after_expand"),
     ])
     scan("lib_guesser/pcfg_grammar.py", [
         ("if self.should_exit:", "omen_flag_check"),
         ("self.omen_guess_num += 1", "omen_count"),
         ("markov_cracker.save_session(", "omen_save"),
+        ("guess = markov_cracker.next_guess()", "omen_next_guess"),
+        ("self.print_guess(guess)", "omen_print"),
+        ("while guess is not None:", "omen_loop_test"),
+        ("return num_guesses", "return_num_guesses"),
     ])
     _LABELS.update(out)
     return _LABELS
@@ -133,6 +140,19 @@ def gen_schedule(t, est_steps):
     for _ in range(t.draw(3)):
         sch["labels"].append((LABEL_NAMES[t.draw(len(LABEL_NAMES))], 1 + t.draw(6)))
     return sch
+
+
+SYNC_LABELS = ["before_pop", "flag_poll", "after_check", "before_expand", "after_expand", "omen_next_guess", "omen_print",
+               "omen_count", "omen_flag_check", "omen_loop_test", "return_num_guesses", "liveness_poll"]
+
+
+def gen_directed(t, total):
+    """a 'q' typed at once, the thread parked right before it sets the flag, released when main reaches a drawn
+    program point for the n-th time: the quit lands at every kind of boundary with probability 1/len(labels)"""
+    events = [{"at": 0, "kind": "line", "text": "q"}]
+    sch = {"main_first": False, "steps": [], "labels": [],
+           "sync": (SYNC_LABELS[t.draw(len(SYNC_LABELS))], t.choice([1, 1, 2, 3, 4, 5, 6, 8, 10, 13, 17, 21, 30, 45, 70]))}
+    return events, sch, t.choice([0.2, 0.2, 0.05])
 
 
 def scheduled_cycle(flags, load, events, schedule, cost, knobs=None):
@@ -280,8 +300,11 @@ def run_one(tape, tier, prop):
             cases.append(([{"at": g, "kind": kind, "text": None}], sch, cost))
     else:
         for _ in range(2 if tier == "quick" else 4):
-            cases.append((gen_script(t, U, total), gen_schedule(t, total * 12),
-                          t.choice([1e-6, 1e-4, 1e-3, 0.02, 0.2])))
+            if t.chance(1, 3):
+                cases.append(gen_directed(t, total))
+            else:
+                cases.append((gen_script(t, U, total), gen_schedule(t, total * 12),
+                              t.choice([1e-6, 1e-4, 1e-3, 0.02, 0.2])))
     sigs = []
     # variant: the scheduled process is a RESUMED one (a stand-in quit inside a Markov level came first), so
     # that status requests meet the stand-in item restore_omen installs and quits can land in the remainder
@@ -334,6 +357,10 @@ def run_one(tape, tier, prop):
         for k, v in r.ctx.kbd_faults.items():
             res.faults["stdin_" + k] += v
         res.stats["priority_change_points_fired"] += r.sim.fired_changes
+        if r.sim.sync is not None:
+            res.stats["directed_quit_cases"] += 1
+            if r.sim.sync_state in ("done", "finished"):
+                res.faults["quit_flag_set_at_main_label:" + r.sim.sync[0]] += 1
         nsw = sum(1 for e in r.sim.log if e[1] == "switch")
         res.stats["switches"] += nsw
         thr = [x for x in r.sim.threads if x is not r.sim.main]
